@@ -473,7 +473,7 @@ PROPS['C18']['streams'] = env_streams
 
 
 def state_streams(tier):
-    n = {'quick': 480, 'extended': 2400, 'thorough': 16000}[tier]
+    n = {'quick': 480, 'extended': 2400, 'thorough': 6400}[tier]
     return [dict(name='histories-vs-one-session', harness=['state', str(n), '{seed}', '{shard}', '{nshards}'], driver='state', timeout=3000)]
 
 
